@@ -313,6 +313,78 @@ func c05Units(ctx *core.Ctx) []core.Unit {
 			}
 		}})
 	}
+	us = append(us, core.Unit{Name: "table engines built over re-represented basis points; generic MSM histories (rejected call in between, empty vector)", Run: func(ctx *core.Ctx, r *core.Result) {
+		needRef()
+		c := conf()
+		polys := polyAlphabet(ctx.Seed)
+		// (a) NewPrecompMSM over the same 256 group elements in projective representations: same commitments
+		for rep := 1; rep < nRepr; rep++ {
+			basis := make([]banderwagon.Element, 256)
+			for i := range basis {
+				basis[i] = reprOf(c.SRS[i], 1+(i+rep)%3)
+			}
+			var eng banderwagon.MSMPrecomp
+			var err error
+			in := fmt.Sprintf("banderwagon.NewPrecompMSM(SRS in projective representations, variant %d)", rep)
+			if !timed(r, "c05.panic", "banderwagon.NewPrecompMSM", in, func() { eng, err = banderwagon.NewPrecompMSM(basis) }) {
+				return
+			}
+			if err != nil {
+				vio(r, "c05.tables", "banderwagon.NewPrecompMSM", in, "an engine", err.Error())
+				continue
+			}
+			for _, p := range []namedPoly{polys[12], polys[8], polys[11], edgePolys()[1]} {
+				v := frsFromBig(p.V)
+				got := eng.MSM(v)
+				want := c.Commit(v)
+				r.Evals++
+				r.Nontrivial++
+				if !got.Equal(&want) || got.Bytes() != want.Bytes() {
+					vio(r, "c05.value", "banderwagon.MSMPrecomp.MSM", in+", vector "+p.Name, fmt.Sprintf("the commitment over the normalised basis: %x", want.Bytes()), fmt.Sprintf("%x", got.Bytes()))
+				}
+			}
+		}
+		// (b) generic MSM: a good call over basis A, a rejected (wrong-length) call over basis B, a good call over B
+		for _, n := range []int{3, 64, 100, 256} {
+			A := append([]banderwagon.Element(nil), c.SRS[:n]...)
+			B := make([]banderwagon.Element, n)
+			for i := range B {
+				B[i] = c.SRS[(i+5)%256]
+			}
+			v := frsFromBig(polys[12].V)[:n]
+			padded := make([]fr.Element, 256)
+			for i := 0; i < n; i++ {
+				padded[(i+5)%256].Add(&padded[(i+5)%256], &v[i])
+			}
+			want := c.Commit(padded) // sum v_i * SRS[i+5]
+			ipa.MultiScalar(A, v)
+			ipa.MultiScalar(B, v[:n-1]) // rejected: lengths differ
+			got, err := ipa.MultiScalar(B, v)
+			r.Evals++
+			r.Nontrivial++
+			if err != nil || !got.Equal(&want) || got.Bytes() != want.Bytes() {
+				vio(r, "c05.multiscalar", "ipa.MultiScalar", fmt.Sprintf("n=%d: MultiScalar(A,v); MultiScalar(B, v[:n-1]) (rejected); MultiScalar(B,v)", n), fmt.Sprintf("sum v_i*B_i = %x", want.Bytes()), fmt.Sprintf("%x err=%v", got.Bytes(), err))
+			}
+		}
+		// (c) the empty vector
+		var id banderwagon.Element
+		id.SetIdentity()
+		for _, mk := range []func() ([]banderwagon.Element, []fr.Element){
+			func() ([]banderwagon.Element, []fr.Element) { return nil, nil },
+			func() ([]banderwagon.Element, []fr.Element) { return []banderwagon.Element{}, []fr.Element{} },
+		} {
+			pts, sc := mk()
+			got, err := ipa.MultiScalar(pts, sc)
+			ce := c.Commit(sc)
+			r.Evals++
+			r.Nontrivial++
+			var sum banderwagon.Element
+			sum.Add(&got, &c.SRS[1])
+			if err == nil && (!got.Equal(&id) || !ce.Equal(&id) || !sum.Equal(&c.SRS[1])) {
+				vio(r, "c05.multiscalar", "ipa.MultiScalar / Commit", "empty vector", "the identity (a valid element: adding it changes nothing)", fmt.Sprintf("MultiScalar=%s Commit=%s", elString(&got), elString(&ce)))
+			}
+		}
+	}})
 	us = append(us, core.Unit{Name: "MultiScalar over SRS prefixes of odd lengths under many CPU counts agrees with Commit", Run: func(ctx *core.Ctx, r *core.Result) {
 		needRef()
 		c := conf()
